@@ -80,3 +80,33 @@ Example C06_premises_inhabited :
        (ex_leaf 3 "L") /\
   foreign ex_root (ex_leaf 9 "L").
 Proof. exact premises_inhabited. Qed.
+
+(* ---------------------------------------------------------------------------------------------------------------
+   "no two nodes share one [xpath]" at the level of the STRING (completes C06_xpath_injective_partial above).
+   Vocabulary (Spec/XpathText.v): [name_ok s] = s contains none of the characters / @ [ ] ; [seg_ok ti] = the field
+   name and the class name of a stored position are name_ok; [clean_names root] = every position on every path from
+   the root is seg_ok (Python identifiers always are; the root's own class name is not constrained);
+   [seg_key ti] = (field, printed index, class) = what one "/@field[index]Class" segment says. *)
+From Oak Require Import Spec.XpathText Proofs.XpathInjProofs.
+
+(* the rendering of step lists to the string is injective: equal strings have equal segments *)
+Theorem C06_xpath_render_injective : forall root l1 l2, Forall seg_ok l1 -> Forall seg_ok l2 ->
+  xpath_of root l1 = xpath_of root l2 -> map seg_key l1 = map seg_key l2.
+Proof. exact xpath_render_injective. Qed.
+
+(* get_xpath is injective on the nodes of the tree: equal strings -> the same path, the same node object.
+   `index or '0'` prints "[0]" both for a single child (index None) and for tuple element 0; they are never confused
+   because, in a node that conforms to its class table (wf_node: its child fields are those the class declares, each
+   name once, each holding either one node or a tuple), the field name already decides which of the two it is. *)
+Theorem C06_xpath_injective : forall ct root, wf_node ct root = true -> nodup_tree root -> clean_names root ->
+  forall t, is_tree root t -> forall l1 x1 l2 x2, path root l1 x1 -> path root l2 x2 ->
+  get_xpath t x1 = get_xpath t x2 -> l1 = l2 /\ x1 = x2 /\ addr x1 = addr x2.
+Proof. exact xpath_injective. Qed.
+
+(* premises inhabited: the example tree is clean; its twins L3 and L4 get different strings *)
+Example C06_xpath_injective_inhabited :
+  wf_node ex_ct ex_root = true /\ nodup_tree ex_root /\ clean_names ex_root /\
+  (exists t, tree_build ex_ct ex_root = Some t /\
+     get_xpath t (ex_leaf 4 "L") = Ok (lit "/@root[0]P/@items[0]L") /\
+     get_xpath t (ex_leaf 3 "L") = Ok (lit "/@root[0]P/@child[0]P/@child[0]L")).
+Proof. exact xpath_inj_inhabited. Qed.
